@@ -8,6 +8,18 @@
            Locate/Locate.v   (property C10's model) for the tie to label indexing.
    Kept findings mirrored by the models, each with a `_refuted` witness and the guarded statements:
      NEW  a label that does not stand alone in its bracket            C16_label_in_nested_bracket_refuted, C16_label_slice_across_lines_refuted
+     NEW  the integer end of a mixed slice X[`a`:3] is inclusive      C16_mixed_slice_integer_stop_refuted
+     NEW  a label slice with a negative step is not inclusive         C16_label_slice_negative_step_refuted
+   WHAT THE MODEL DOES NOT SAY (reviewer-E 3): CPython's evaluation of the final text is the Section variable
+     pyeval : string -> ns V -> pyres V, a PURE function of the text and the namespace.  "eval() never alters the container or
+     the helper table" (C16_eval_pure, C16_eval_has_no_memory, snd (fst r) = vars) is therefore a statement about eval()'s OWN
+     code — deep copy of the table, update of the working dict only — for expressions WITHOUT side effects; an expression such
+     as X.fill(0), or _builtins.update(...) reached through the module-global leak, is excluded by that type, not by a
+     hypothesis (harness ASSUMPTIONS says the same).  `vars` stands for {x: self[x] for x in self.index}: exactly the names of
+     the container's index, each bound to the series object itself (no copy); an AliasMixin alias is NOT a name of the index and
+     is not bound (checked by the harness, kind `model`).  Theorems that merely unfold a definition and are not counted as
+     covering a clause: C16_lead_eq_lag_neg, C16_dlog_eq_diff_log, C16_eval_text_is_rewrite (after rewrite_no_tick_identity),
+     C16_eval_undefined_name (the definition of convert), C16_namespace_precedence (a fact about dict.update).
    Repaired since round 1 and now proved positively: #15 (fix 24bdfbd) — C16_positional_brackets_untouched.
      #26  diff(x, 0) = x                                               C16_diff_zero_formula_refuted
      NEW  labels with colon / closing bracket / edge backtick          C16_label_with_colon_refuted, C16_label_with_bracket_or_edge_backtick_refuted
@@ -15,7 +27,7 @@
      NEW  integer arrays: the default fill NaN raises                  C16_int_array_nan_fill_refuted *)
 From Coq Require Import ZArith List Bool String Ascii.
 Import ListNotations.
-Require Import PyBase Funcs FuncsFacts FuncsExamples FuncsFacts2 FuncsExamples2 FuncsConv FuncsConvFacts EvalIdx EvalIdxFacts EvalIdxExamples EvalIdxWhole EvalIdxWholeExamples EvalIdxMixed EvalIdxLocate EvalIdxLocateExamples EvalIdxProgram EvalIdxProgramExamples EvalIdxProgram2 EvalIdxProgram3 EvalIdxLocateSpans EvalIdxLocateRange EvalIdxInt EvalIdxGuards EvalIdxNested EvalIdxHistory.
+Require Import PyBase Funcs FuncsFacts FuncsExamples FuncsFacts2 FuncsExamples2 FuncsConv FuncsConvFacts EvalIdx EvalIdxFacts EvalIdxExamples EvalIdxWhole EvalIdxWholeExamples EvalIdxMixed EvalIdxLocate EvalIdxLocateExamples EvalIdxProgram EvalIdxProgramExamples EvalIdxProgram2 EvalIdxProgram3 EvalIdxLocateSpans EvalIdxLocateRange EvalIdxInt EvalIdxGuards EvalIdxNested EvalIdxHistory EvalIdxNegStep.
 Require Fsic.Locate.Locate Fsic.Locate.LocateFacts.
 Open Scope string_scope.
 Open Scope Z_scope.
@@ -384,10 +396,7 @@ Section C16_rewrite.
     no_tick a -> no_colon a -> a ~> la -> no_tick b -> no_colon b -> b ~> lb ->
     resolve_group has locate (("`" ++ a ++ "`") ++ ":" ++ ("`" ++ b ++ "`")) =
       Ret ("[" ++ Z_to_string (snd (start_of la)) ++ ":" ++ Z_to_string (snd (bump (stop_of lb))) ++ ":" ++ "" ++ "]").
-  Proof.
-    exact (fun Ta Ca Ra Tb Cb Rb =>
-             label_slice_rewrite_loc has locate (LP a la) (LP b lb) (conj Ta (conj Ca Ra)) (conj Tb (conj Cb Rb))).
-  Qed.
+  Proof. exact (label_slice_rewrite_any_loc has locate a b la lb). Qed.
 
   (* ---- MIXED brackets: a slice with a backticked label at one end and a plain text at the other still reaches the callback.
           Items: MLab a l = `a` resolving to l; MPlain p = the text p ("" = open end).  m_val: the text written for an item —
@@ -512,6 +521,42 @@ End C16_rewrite.
    match `[` ws `]` (never a backtick); the pieces partition the string *)
 Theorem C16_scan_partitions (s : string) : sconcat (map piece_src (scan s)) = s.
 Proof. exact (scan_partitions s). Qed.
+
+(* NEW finding (mixed-slice-integer-end): "positional ... slices keep their ordinary Python meaning wherever they appear" fails for the
+   integer end of a MIXED slice: the callback adds one to every built-in-int stop, label or not, and sends every plain item
+   through int() *)
+Theorem C16_mixed_slice_integer_stop_refuted :
+  exists (sp : span_model),
+    eval_text_span sp "X[`2001`:3]" = Ret "X[1:4:]" /\ index_sem 5 "1:4:" = Some [1; 2; 3]%nat /\ index_sem 5 "1:3" = Some [1; 2]%nat /\
+    eval_text_span sp "X[`2001`:-1]" = Ret "X[1:0:]" /\ index_sem 5 "1:0:" = Some [] /\ index_sem 5 "1:-1" = Some [1; 2; 3]%nat /\
+    eval_text_span sp "X[`2001`:2-1]" = Raise ValueError.
+Proof. exact mixed_slice_integer_stop_refuted. Qed.
+
+(* ---- label slices with a NEGATIVE step.  index_sem_any = Python's reading of an integer-literal subscript for either sign of
+        the step (extends index_sem; validated against CPython by the `sem` cases).  The text written does not depend on the step:
+        [start : stop+1 : s] — the bounds label indexing uses too (C16_label_slice_step_text_is_C10_bounds has no sign hypothesis),
+        so eval() and label indexing agree; but for s < 0 Python walks down from start and stops BEFORE stop+1 ---- *)
+Theorem C16_index_sem_any_extends (n : nat) (inner : string) (l : list nat) : index_sem n inner = Some l -> index_sem_any n inner = Some l.
+Proof. exact (index_sem_any_extends n inner l). Qed.
+
+Theorem C16_label_slice_neg_step_positions (has : label -> bool) (locate : label -> outcome loc)
+        (a b : string) (pa pb : nat) (s : Z) (n q : nat) :
+  has_char ch_tick a = false -> has_char ch_colon a = false -> label_resolves has locate a (LocI PyInt (Z.of_nat pa)) ->
+  has_char ch_tick b = false -> has_char ch_colon b = false -> label_resolves has locate b (LocI PyInt (Z.of_nat pb)) ->
+  s < 0 -> (pa < n)%nat -> (pb < n)%nat ->
+  exists inner,
+    resolve_group has locate (("`" ++ a ++ "`") ++ ":" ++ ("`" ++ b ++ "`") ++ ":" ++ Z_to_string s) = Ret ("[" ++ inner ++ "]") /\
+    exists sel, index_sem_any n inner = Some sel /\
+      (In q sel <-> exists i : nat, Z.of_nat q = Z.of_nat pa + Z.of_nat i * s /\ Z.of_nat pb + 1 < Z.of_nat q).
+Proof. exact (label_slice_neg_step_positions has locate a b pa pb s n q). Qed.
+
+(* NEW finding (label-slice-negative-step): the periods b and b+1 are missing — the slice is not the inclusive one *)
+Theorem C16_label_slice_negative_step_refuted :
+  exists (sp : span_model) (e e' inner : string),
+    e = "X[`2003`:`2001`:-1]" /\ eval_text_span sp e = Ret e' /\ e' = "X[" ++ inner ++ "]" /\ inner = "3:2:-1" /\
+    index_sem_any 5 inner = Some [3]%nat /\
+    index_sem_any 5 "3:0:-1" = Some [3; 2; 1]%nat.
+Proof. exact label_slice_negative_step_refuted. Qed.
 
 (* NEW finding: a label must stand alone as an item of its bracket.  The regular expression ends a bracket at the FIRST closing
    bracket and takes what precedes as one item, so a label inside a nested subscript or in parentheses is not found (KeyError
@@ -1020,3 +1065,7 @@ Print Assumptions C16_label_slice_across_lines_unchanged.
 Print Assumptions C16_eval_positional_brackets_untouched.
 Print Assumptions C16_eval_text_is_rewrite.
 Print Assumptions C16_eval_has_no_memory.
+Print Assumptions C16_mixed_slice_integer_stop_refuted.
+Print Assumptions C16_index_sem_any_extends.
+Print Assumptions C16_label_slice_neg_step_positions.
+Print Assumptions C16_label_slice_negative_step_refuted.
